@@ -96,15 +96,48 @@ def coq_build():
     if p.returncode != 0:
         sys.stdout.write(p.stdout[-4000:])
         raise SystemExit("coq build failed")
-    bad = subprocess.run(
-        "grep -rnE '\\b(Admitted|admit|Axiom|Parameter|Conjecture|Unset Guard|bypass_check|type-in-type)\\b' "
-        "--include=*.v theories | grep -v '(\\*.*\\*)' || true",
-        shell=True, cwd=COQDIR, stdout=subprocess.PIPE, text=True).stdout.strip()
+    bad = forbidden_declarations()
     if bad:
-        print(bad)
+        print("\n".join(bad))
         raise SystemExit("forbidden declaration in the Coq development")
     _built = True
     return time.time() - t
+
+
+_FORBID = re.compile(r"\b(Admitted|admit|Axiom|Axioms|Parameter|Parameters|Conjecture|Unset\s+Guard|bypass_check|type-in-type|impredicative-set|Admit\s+Obligations)\b")
+
+
+def strip_coq_comments(src):
+    out, depth, i = [], 0, 0
+    while i < len(src):
+        if src.startswith("(*", i):
+            depth += 1
+            i += 2
+        elif src.startswith("*)", i) and depth:
+            depth -= 1
+            i += 2
+        else:
+            if not depth:
+                out.append(src[i])
+            elif src[i] == "\n":
+                out.append("\n")
+            i += 1
+    return "".join(out)
+
+
+def forbidden_declarations():
+    """Gate: no Admitted / admit / Axiom / Parameter / ... outside comments in
+    any .v file of the development (Variable/Hypothesis are only used inside
+    Sections; Print Assumptions of every Props theorem is checked separately)."""
+    bad = []
+    for r, dirs, files in os.walk(os.path.join(COQDIR, "theories")):
+        for f in sorted(files):
+            if f.endswith(".v"):
+                src = strip_coq_comments(open(os.path.join(r, f)).read())
+                for n, line in enumerate(src.splitlines(), 1):
+                    if _FORBID.search(line):
+                        bad.append("%s:%d: %s" % (os.path.join(r, f), n, line.strip()[:120]))
+    return bad
 
 
 def workdir(pid):
